@@ -212,5 +212,5 @@ def reject_kind(msg):
 
 
 def parts(ctx):
-    return [Part('defaults_examples', run, strategy=cases(), n=ctx.n(800, 10000), budget_s=ctx.n(120, 3000)),
+    return [Part('defaults_examples', run, strategy=cases(), n=ctx.n(1600, 12000), budget_s=ctx.n(120, 3000)),
             Part('default_grid', run_grid, enumerate=grid_enum, exhaustive=True)]
